@@ -52,8 +52,10 @@ def run_chunk(args):
     scs = []
     for n, cs in enumerate(cases):
         cs.scenario["case"] = n
+        if ex_kw.get("obs") and "obs" not in cs.scenario:
+            cs.scenario["obs"] = ex_kw["obs"]
         scs.append(cs.scenario)
-    recs = lib.run_inkdrive(scs, wd, name="probe%d" % idx, flavour=flavour, timeout=1800)
+    recs = lib.run_inkdrive(scs, wd, name="probe%d" % idx, flavour=getattr(build, "probe_flavour", flavour), timeout=1800)
     bc = lib.by_case(recs)
     nontrivial = set()
     samples = []
